@@ -65,7 +65,7 @@ fn main() {
         cases.rotate_left(k);
       }
       let mut rep = Report::new();
-      start_watchdog("c15".into(), args[4].clone(), 60);
+      start_watchdog("c15".into(), args[4].clone(), 120);
       note_case(&serde_json::json!("start"));
       c15::replay_on::<Sh>(&cases, &mut rep);
       rep.write(&args[4]);
